@@ -76,8 +76,12 @@ def insertNat (e : Nat) : List Nat → List Nat
 /-- The key set of the I/O map is printed in increasing order (a `HashMap` has no order). -/
 def sortNat (l : List Nat) : List Nat := l.foldr insertNat []
 
+/-- The pending PARTIAL send failures, `cid:k`, oldest first (only the live entries of `Sys.failAfter`). -/
+def showFailAfter (s : S) : String :=
+  "[" ++ ",".intercalate ((Sys.pruneAfter s.failNext s.failAfter).map fun e => s!"{e.1}:{e.2}") ++ "]"
+
 def showSys (s : S) : String :=
-  s!"sys[last={showOptNat s.lastSelected} ck={showBool s.clientKnown} afa={showOptNat s.allFailedAt} fail={showList s.failNext} fb={showList s.failBind} io={showList (sortNat s.io)}] " ++
+  s!"sys[last={showOptNat s.lastSelected} ck={showBool s.clientKnown} afa={showOptNat s.allFailedAt} fail={showList s.failNext} fb={showList s.failBind} fa={showFailAfter s} io={showList (sortNat s.io)}] " ++
   showReg s.reg ++ " | " ++ " | ".intercalate (s.links.map showLink)
 
 def idFromSeed (seed : Nat) (salt : Nat) : List UInt8 :=
@@ -193,6 +197,13 @@ def step (s : S) (toks : List String) : S × String :=
       if s.failNext.contains cid || !(s.links.any fun (l : L) => l.core.connId == cid) then bad
       else fin (Sys.step s (.failNext cid))
     | none => bad
+  | ["failafter", cid, k] =>
+    -- the next batch send of that link puts the first `min k len` datagrams of the batch on the wire, THEN fails
+    match cid.toNat?, k.toNat? with
+    | some cid, some k =>
+      if s.failNext.contains cid || !(s.links.any fun (l : L) => l.core.connId == cid) then bad
+      else fin (Sys.step s (.failAfter cid k))
+    | _, _ => bad
   | ["failbind", cid] =>
     -- the uplink binder of that link refuses once: its next `reconnect_uplink` fails
     match cid.toNat? with
